@@ -410,14 +410,14 @@ func sfParse(toks []string) (*sfNode, []string, error) {
 
 // ---- the object store ---------------------------------------------------------------------------------
 
-type sliceIter struct {
+type c19SliceIter struct {
 	rows []*qRow
 	pos  int
 }
 
-func (it *sliceIter) IsValid() bool { return it.pos < len(it.rows) }
-func (it *sliceIter) Next()         { it.pos++ }
-func (it *sliceIter) Current() *qRow {
+func (it *c19SliceIter) IsValid() bool { return it.pos < len(it.rows) }
+func (it *c19SliceIter) Next()         { it.pos++ }
+func (it *c19SliceIter) Current() *qRow {
 	if it.pos < len(it.rows) {
 		return it.rows[it.pos]
 	}
@@ -432,7 +432,7 @@ type c19Objects struct {
 func newC19Objects() *c19Objects {
 	o := &c19Objects{}
 	o.store = objectz.NewObjectStore[*qRow](func() objectz.ObjectIterator[*qRow] {
-		return &sliceIter{rows: o.order}
+		return &c19SliceIter{rows: o.order}
 	})
 	o.store.AddStringSymbol("id", func(r *qRow) *string { return &r.id })
 	for ci, col := range qCols {
@@ -549,7 +549,7 @@ func (c *c19Query) caseLine() string {
 	return "Q " + ord + " " + c.filter.term() + " " + strings.Join(f[2:], " ")
 }
 
-func shuffled(r *rng, n int) []int {
+func qShuffled(r *rng, n int) []int {
 	p := make([]int, n)
 	for i := range p {
 		p[i] = i
@@ -579,7 +579,7 @@ func runC19(o *opts) error {
 
 	stats := map[string]map[string]int{"rows": {}, "sort_keys": {}, "skip": {}, "limit": {}, "filter_root": {}, "filter_has": {}}
 	bump := func(group, key string) { stats[group][key]++ }
-	r := newRng(o.seed)
+	r := qRng(o.seed, 0xC19)
 	nData, nFilters := 5, 12
 	if o.thorough() {
 		nData, nFilters = 80, 14
@@ -597,6 +597,10 @@ func runC19(o *opts) error {
 			n = 2 + r.intn(11)
 		}
 		d := qGenDataset(r, n, false)
+		if di == 0 {
+			d = qProbeDataset()
+			n = len(d.rows)
+		}
 		store, err := qb.load(d)
 		if err != nil {
 			return err
@@ -606,7 +610,7 @@ func runC19(o *opts) error {
 		bump("rows", strconv.Itoa(n))
 		grid := qPagingGrid(int64(n))
 		emit := func(f *sfNode, fs []qSortField, pg qPaging) {
-			cq := &c19Query{filter: f, q: qQuery{sort: fs, skip: pg.skip, limit: pg.limit, none: pg.none}, order: shuffled(r, n)}
+			cq := &c19Query{filter: f, q: qQuery{sort: fs, skip: pg.skip, limit: pg.limit, none: pg.none}, order: qShuffled(r, n)}
 			text := cq.text()
 			cases.line("%s", cq.caseLine())
 			impl.line("objectz=%s boltz=%s", objs.query(d, cq.order, text), c19Bolt(qb.db, store, text))
@@ -628,6 +632,11 @@ func runC19(o *opts) error {
 		sortCol := r.intn(6)
 		for _, pg := range grid {
 			emit(&sfNode{kind: "null", col: nullCol, neg: r.chance(50)}, []qSortField{{col: sortCol, asc: r.chance(50)}}, pg)
+		}
+		// (1b) every single-key sort in both directions, id-first and 5-key specifications
+		for _, fs := range qSystematicSorts() {
+			emit(&sfNode{kind: "T"}, fs, qPaging{})
+			emit(&sfNode{kind: "null", col: r.intn(6), neg: true}, fs, qPaging{skip: qI64p(1), limit: qI64p(int64(n) - 1)})
 		}
 		// (2) every atom kind x operator x column once, unpaged and with one random page
 		for col := -1; col < len(qCols); col++ {
